@@ -17,8 +17,12 @@ variable (cfg : Cfg)
 /-- The bytes pass the integrity check of `sri`. -/
 def Passes (sri : Integrity) (b : Bytes) : Prop := (Sri.check cfg.H sri b).isSome = true
 
-/-- **Whole read by address**: whatever the file holds, a successful read returns bytes whose
-digest is the requested address. -/
+/-- **Whole read by address**: whatever the file holds, a successful read returns bytes that pass
+the check of the requested integrity (`Passes`).  For a single-hash integrity that means: their
+digest is the address (`exact_bytes`, single-hash).  For an integrity with SEVERAL digests of its
+first algorithm, `Sri.check` accepts a match with ANY of them while `contentPath` addresses by the
+FIRST one only — so the bytes read from the first digest's path may have the second digest (known
+finding F24); `Passes` is what holds in general. -/
 theorem readHash_sound (cache : Path) (sri : Integrity) :
     AllCallsR (fun _ => True) (fun r => ∀ b, r = .ok b → Passes cfg sri b)
       (readHash cfg cache sri) := by
